@@ -16,12 +16,12 @@ LawsHoldOnSpec ==
     \* what stays in the tree is again a valid change set, and shelved + kept is a partition of D
     /\ Valid(Kept(D, S)) /\ Shelved(D, S) \subseteq D
     \* every selected unit takes at least one atom out of the tree; unselected units keep all of theirs
-    /\ \A u \in S : \E x \in Shelved(D, S) : Unit(x) = u
+    /\ \A u \in S \ NullUnits(D) : \E x \in Shelved(D, S) : Unit(x) = u
     /\ \A x \in Kept(D, S) : Unit(x) \notin S \/ (x.k \notin Gone /\ KS(D, x.f) \cap Gone # {})
     \* shelving everything that is offered leaves only what can never be offered
     /\ (S = Units(D) => \A x \in Kept(D, S) : x.k = "exec" \/ KS(D, x.f) \cap Gone # {})
     \* distinct selections give distinct trees (a selection is observable)
-    /\ \A T \in SUBSET Units(D) : T # S => Tree(Kept(D, T)) # Tree(Kept(D, S))
+    /\ \A T \in SUBSET Units(D) : T \ NullUnits(D) # S \ NullUnits(D) => Tree(Kept(D, T)) # Tree(Kept(D, S))
 \* anti-vacuity witnesses: TLC must find these states
 WitnessOneHunkOfTwo == ~(At("a", "modA") \in S_(c) /\ At("a", "modB") \in D_(c) /\ At("a", "modB") \notin S_(c))
 WitnessRenameKeptEditShelved == ~(At("a", "ren") \in Kept(D_(c), S_(c)) /\ At("a", "modA") \in Shelved(D_(c), S_(c)))
